@@ -35,7 +35,9 @@ func TestMain(m *testing.M) {
 }
 
 var clusterNames = []string{"alpha", "beta", "gamma"}
-var aliasPool = []string{"a.example.com", "B.Example.COM", "shared.io", "x-alias", "beta", "Gamma"}
+
+// case variants of one name (and of cluster names) are in the pool on purpose: a cluster may list two spellings
+var aliasPool = []string{"a.example.com", "A.Example.com", "B.Example.COM", "b.example.com", "shared.io", "x-alias", "beta", "Gamma", "ALPHA", "Beta"}
 
 type world struct {
 	box    *ctlbox.Box
@@ -167,8 +169,8 @@ func TestPropNameOwnership(t *testing.T) {
 				}
 				var free []string
 				for _, a := range aliasPool {
-					if !taken[strings.ToLower(a)] && strings.ToLower(a) != name {
-						free = append(free, a)
+					if !taken[strings.ToLower(a)] {
+						free = append(free, a) // includes other spellings of the cluster's own name
 					}
 				}
 				obj := gen.GenValidCluster(t, "obj", name, gen.ObjOpts{Endpoints: []string{"http://127.0.0.1:1", "http://127.0.0.1:2"}, ServerNames: free, PKI: mats, SchemaNames: []string{"s1"}, NoGlobal: true})
